@@ -1195,6 +1195,8 @@ def np_asarray(I, x, dtype=None, **kw):
         return x
     if isinstance(x, (tuple, list)):
         return PList(list(x), 'vec')
+    if hasattr(x, 'pv_asarray'):      # ghost container of a contract file (e.g. a pandas Series whose values are an array)
+        return x.pv_asarray()
     raise Unsupported(f"np.asarray of {type(x).__name__}")
 
 
